@@ -179,4 +179,4 @@ def run(tier, seed, rng):
 
 
 def replay(f):
-    return True, dict(note='re-run the check: python3 check.py C19', failure=f)
+    return pktprops.generic_replay(f)
